@@ -143,6 +143,8 @@ impl ParsedDate {
             .duration_since(UNIX_EPOCH)
             .unwrap_or_default();
         let secs = duration.as_secs();
+        #[cfg(feature = "verif-hooks")]
+        let secs = crate::verif_hooks::now_override().unwrap_or(secs);
 
         // Simple calculation: days since epoch
         let days = secs / 86400;
